@@ -152,6 +152,49 @@ pub enum InterpolateError {
 ///  - Types should be annotated to ensure type inference does not break
 /// the contract by accident
 unsafe fn cast_unchecked<A, B>(a: A) -> B {
+    #[cfg(ndarray_interp_verif)]
+    verif_hooks::on_cast::<A, B>();
     let ptr = &*ManuallyDrop::new(a) as *const A as *const B;
     unsafe { ptr.read() }
+}
+
+/// Verification instrumentation, only compiled with `--cfg ndarray_interp_verif`.
+///
+/// Observes every [`cast_unchecked`] call: counts it and refuses (by panicking
+/// *before* the reinterpreting read happens) a cast between types that differ.
+#[cfg(ndarray_interp_verif)]
+#[doc(hidden)]
+pub mod verif_hooks {
+    use std::cell::Cell;
+
+    thread_local! {
+        static CASTS: Cell<u64> = const { Cell::new(0) };
+        static MISMATCHES: Cell<u64> = const { Cell::new(0) };
+    }
+
+    /// number of `cast_unchecked` calls made by the current thread
+    pub fn cast_count() -> u64 {
+        CASTS.with(|c| c.get())
+    }
+
+    /// number of `cast_unchecked` calls of the current thread whose source and
+    /// destination types were not identical
+    pub fn mismatch_count() -> u64 {
+        MISMATCHES.with(|c| c.get())
+    }
+
+    pub(crate) fn on_cast<A, B>() {
+        CASTS.with(|c| c.set(c.get() + 1));
+        let same = std::any::type_name::<A>() == std::any::type_name::<B>()
+            && std::mem::size_of::<A>() == std::mem::size_of::<B>()
+            && std::mem::align_of::<A>() == std::mem::align_of::<B>();
+        if !same {
+            MISMATCHES.with(|c| c.set(c.get() + 1));
+            panic!(
+                "ndarray_interp_verif: cast_unchecked between different types: {} -> {}",
+                std::any::type_name::<A>(),
+                std::any::type_name::<B>()
+            );
+        }
+    }
 }
